@@ -425,6 +425,15 @@ func (w *World) registerSortQueryIntrinsics() {
 		return nil
 	}
 	// sort.SliceStable sorts blocks of up to 20 elements by the same insertion sort
+	// the default transport and its clones: opaque transports (connections are outside every claim)
+	I["net/http.defaultTransportDialContext"] = func(e *Exec, fn *ssa.Function, a []Value) Value {
+		return &FuncVal{builtin: "verif:noop"}
+	}
+	I["(*net/http.Transport).Clone"] = func(e *Exec, fn *ssa.Function, a []Value) Value {
+		tt := e.errorsPkgType("net/http", "Transport")
+		return &Pointer{obj: e.newObject(tt, e.zero(tt), "transport clone")}
+	}
+	I["(*net/http.Transport).RegisterProtocol"] = func(e *Exec, fn *ssa.Function, a []Value) Value { return nil }
 	I["sort.SliceStable"] = I["sort.Slice"]
 	qesc := func(t *Term) *Term {
 		if s, ok := t.strVal(); ok {
